@@ -1271,4 +1271,316 @@ theorem sg_release_seg {V V' : St} (hi : SInv V) {pref rest : List Seg} {g : Seg
         have := sg_isRecord_mono (g := g) hr
         rw [← hsegs, u5] at this; cases this
 
+/-! ## 7. sorted tables as sets: membership forms of the header writes -/
+
+/-- two sorted tables with the same headers are equal -/
+theorem sg_entsOk_ext : ∀ {l1 l2 : List Ent}, entsOk l1 = true → entsOk l2 = true → (∀ z, z ∈ l1 ↔ z ∈ l2) → l1 = l2 := by
+  intro l1
+  induction l1 with
+  | nil =>
+    intro l2 _ _ h
+    cases l2 with
+    | nil => rfl
+    | cons b r => exact absurd ((h b).2 List.mem_cons_self) (by simp)
+  | cons a r ih =>
+    intro l2 h1 h2 h
+    cases l2 with
+    | nil => exact absurd ((h a).1 List.mem_cons_self) (by simp)
+    | cons b r2 =>
+      have la := sg_addr_lt_of_entsOk h1
+      have lb := sg_addr_lt_of_entsOk h2
+      have hab : a = b := by
+        have ha : a ∈ b :: r2 := (h a).1 List.mem_cons_self
+        have hb : b ∈ a :: r := (h b).2 List.mem_cons_self
+        rcases List.mem_cons.1 ha with ha | ha
+        · exact ha
+        · rcases List.mem_cons.1 hb with hb | hb
+          · exact hb.symm
+          · have := la b hb; have := lb a ha; omega
+      subst hab
+      congr 1
+      refine ih (entsOk_tail h1) (entsOk_tail h2) ?_
+      intro z
+      constructor
+      · intro hz
+        rcases List.mem_cons.1 ((h z).1 (List.mem_cons_of_mem _ hz)) with hza | hza
+        · subst hza; have := la z hz; omega
+        · exact hza
+      · intro hz
+        rcases List.mem_cons.1 ((h z).2 (List.mem_cons_of_mem _ hz)) with hza | hza
+        · subst hza; have := lb z hz; omega
+        · exact hza
+
+theorem sg_entsOk_filter {l : List Ent} (h : entsOk l = true) (p : Ent → Bool) : entsOk (l.filter p) = true := by
+  rw [entsOk_iff] at h ⊢
+  exact ⟨fun e he => h.1 e (List.mem_filter.1 he).1, h.2.filter p⟩
+
+/-- the headers of a segment, identified by membership -/
+theorem sg_segEnts_eq {es l : List Ent} {g : Seg} (hok : entsOk es = true) (hl : entsOk l = true)
+    (h : ∀ z, z ∈ l ↔ z ∈ es ∧ inSeg g z = true) : segEnts es g = l := by
+  refine sg_entsOk_ext (sg_entsOk_filter hok _) hl ?_
+  intro z
+  rw [mem_segEnts, h z]
+
+/-- **`putEnt` on a sorted table, as a set**: the new header replaces the headers starting inside it -/
+theorem sg_putEnt_tab {es : List Ent} {e : Ent} (hok : entsOk es = true) (hpos : 0 < e.size)
+    (hlow : ∀ y ∈ es, y.addr < e.addr → y.addr + y.size ≤ e.addr) :
+    entsOk (putEnt es e) = true ∧
+      ∀ z, z ∈ putEnt es e ↔ z = e ∨ (z ∈ es ∧ (z.addr < e.addr ∨ e.addr + e.size ≤ z.addr)) := by
+  obtain ⟨pre, post, hsplit, h1, h2⟩ := sg_seg_split hok { base := e.addr, size := e.size, recAt := 0 }
+  have hmid : ∀ m ∈ segEnts es { base := e.addr, size := e.size, recAt := 0 }, m ∈ es ∧ e.addr ≤ m.addr ∧ m.addr < e.addr + e.size := by
+    intro m hm
+    obtain ⟨a, b⟩ := mem_segEnts.1 hm
+    rw [inSeg_iff] at b
+    exact ⟨a, b⟩
+  generalize segEnts es { base := e.addr, size := e.size, recAt := 0 } = mid at hsplit hmid
+  simp only at h1 h2
+  have hput : putEnt es e = pre ++ e :: post := by
+    rw [hsplit]
+    refine putEnt_window h1 ?_ ?_
+    · intro m hm
+      have := hmid m hm
+      exact ⟨this.2.1, Or.inr this.2.2⟩
+    · intro q hq
+      have := h2 q hq
+      omega
+  rw [hput]
+  have hok' := hok
+  rw [hsplit, List.append_assoc] at hok'
+  obtain ⟨a1, a2, a3⟩ := entsOk_append.1 hok'
+  obtain ⟨_, a5, _⟩ := entsOk_append.1 a2
+  have hprem : ∀ p ∈ pre, p ∈ es := fun p hp => by rw [hsplit]; simp [hp]
+  have hpostm : ∀ p ∈ post, p ∈ es := fun p hp => by rw [hsplit]; simp [hp]
+  constructor
+  · refine entsOk_append.2 ⟨a1, ?_, ?_⟩
+    · have : entsOk ([e] ++ post) = true := by
+        refine entsOk_append.2 ⟨by simp [entsOk, hpos], a5, ?_⟩
+        intro a ha b hb
+        simp only [List.mem_singleton] at ha
+        subst ha
+        exact h2 b hb
+      simpa using this
+    · intro a ha b hb
+      rcases List.mem_cons.1 hb with hb | hb
+      · subst hb; exact hlow a (hprem a ha) (h1 a ha)
+      · exact a3 a ha b (List.mem_append.2 (Or.inr hb))
+  · intro z
+    simp only [List.mem_append, List.mem_cons]
+    constructor
+    · rintro (h | h | h)
+      · exact Or.inr ⟨hprem z h, Or.inl (h1 z h)⟩
+      · exact Or.inl h
+      · exact Or.inr ⟨hpostm z h, Or.inr (h2 z h)⟩
+    · rintro (h | ⟨hz, hc⟩)
+      · exact Or.inr (Or.inl h)
+      · rw [hsplit] at hz
+        simp only [List.mem_append] at hz
+        rcases hz with (hz | hz) | hz
+        · exact Or.inl hz
+        · have := hmid z hz; omega
+        · exact Or.inr (Or.inr hz)
+
+/-- **`modEnt` on a sorted table, as a set** (the rewritten header keeps address and size) -/
+theorem sg_modEnt_tab {es : List Ent} {x : Ent} {f : Ent → Ent} (hok : entsOk es = true) (hx : x ∈ es)
+    (hfa : (f x).addr = x.addr) (hfs : (f x).size = x.size) :
+    ∃ es', modEnt f es x.addr = some es' ∧ entsOk es' = true ∧
+      ∀ z, z ∈ es' ↔ z = f x ∨ (z ∈ es ∧ z.addr ≠ x.addr) := by
+  obtain ⟨pre, post, hes⟩ := List.append_of_mem hx
+  subst hes
+  refine ⟨pre ++ f x :: post, modEnt_mid hok, ?_, ?_⟩
+  · obtain ⟨a1, a2, a3⟩ := entsOk_append.1 hok
+    refine entsOk_append.2 ⟨a1, ?_, ?_⟩
+    · have hh := entsOk_head_le a2
+      have : entsOk ([f x] ++ post) = true := by
+        refine entsOk_append.2 ⟨?_, entsOk_tail a2, ?_⟩
+        · have := entsOk_pos a2 x List.mem_cons_self
+          simp [entsOk, hfs, this]
+        · intro a ha b hb
+          simp only [List.mem_singleton] at ha
+          subst ha
+          rw [hfa, hfs]; exact hh b hb
+      simpa using this
+    · intro a ha b hb
+      rcases List.mem_cons.1 hb with hb | hb
+      · subst hb; rw [hfa]; exact a3 a ha x List.mem_cons_self
+      · exact a3 a ha b (List.mem_cons_of_mem _ hb)
+  · intro z
+    have hpre := entsOk_pre_lt hok
+    obtain ⟨_, a2, _⟩ := entsOk_append.1 hok
+    have hpost := sg_addr_lt_of_entsOk a2
+    simp only [List.mem_append, List.mem_cons]
+    constructor
+    · rintro (h | h | h)
+      · exact Or.inr ⟨Or.inl h, by have := (hpre z h).2; omega⟩
+      · exact Or.inl h
+      · exact Or.inr ⟨Or.inr (Or.inr h), by have := hpost z h; omega⟩
+    · rintro (h | ⟨h | h | h, hne⟩)
+      · exact Or.inr (Or.inl h)
+      · exact Or.inl h
+      · subst h; exact absurd rfl hne
+      · exact Or.inr (Or.inr h)
+
+/-- `writeHead` on a sorted table, as a set -/
+theorem sg_writeHead_tab {h h' : Heap} {a size : Nat} {c p : Bool} (e : writeHead h a size c p = .ok h')
+    (hok : entsOk h.ents = true) (hpos : 0 < size) (hlow : ∀ y ∈ h.ents, y.addr < a → y.addr + y.size ≤ a) :
+    h' = { h with ents := h'.ents } ∧ entsOk h'.ents = true ∧
+      ∀ z, z ∈ h'.ents ↔ z = { addr := a, size := size, cin := c, pin := p, pfoot := pfootAt h.ents a } ∨
+        (z ∈ h.ents ∧ (z.addr < a ∨ a + size ≤ z.addr)) := by
+  have h8 : size % 8 = 0 := by
+    unfold writeHead at e
+    split at e
+    · msimp at e
+    · rename_i hh; omega
+  rw [writeHead_eq h8] at e
+  injection e with e
+  subst e
+  obtain ⟨t1, t2⟩ := sg_putEnt_tab (e := { addr := a, size := size, cin := c, pin := p, pfoot := pfootAt h.ents a })
+    hok hpos hlow
+  exact ⟨rfl, t1, t2⟩
+
+theorem sg_setFoot_tab {h h' : Heap} {a v : Nat} {x : Ent} (e : setFoot h a v = .ok h') (hok : entsOk h.ents = true)
+    (hx : x ∈ h.ents) (ha : x.addr = a) :
+    h' = { h with ents := h'.ents } ∧ entsOk h'.ents = true ∧
+      ∀ z, z ∈ h'.ents ↔ z = { x with pfoot := v } ∨ (z ∈ h.ents ∧ z.addr ≠ a) := by
+  subst ha
+  obtain ⟨es', h1, h2, h3⟩ := sg_modEnt_tab (f := fun e => { e with pfoot := v }) hok hx rfl rfl
+  unfold setFoot at e
+  rw [h1] at e
+  msimp at e
+  subst e
+  exact ⟨rfl, h2, h3⟩
+
+theorem sg_clearPin_tab {h h' : Heap} {a : Nat} {x : Ent} (e : clearPin h a = .ok h') (hok : entsOk h.ents = true)
+    (hx : x ∈ h.ents) (ha : x.addr = a) :
+    h' = { h with ents := h'.ents } ∧ entsOk h'.ents = true ∧
+      ∀ z, z ∈ h'.ents ↔ z = { x with pin := false } ∨ (z ∈ h.ents ∧ z.addr ≠ a) := by
+  subst ha
+  obtain ⟨es', h1, h2, h3⟩ := sg_modEnt_tab (f := fun e => { e with pin := false }) hok hx rfl rfl
+  unfold clearPin at e
+  rw [h1] at e
+  msimp at e
+  subst e
+  exact ⟨rfl, h2, h3⟩
+
+/-- a header found by address in a sorted table -/
+theorem sg_find_iff {es : List Ent} (hok : entsOk es = true) {a : Nat} {e : Ent} :
+    findEnt es a = some e ↔ e ∈ es ∧ e.addr = a := by
+  constructor
+  · exact findEnt_some
+  · rintro ⟨h1, h2⟩; rw [← h2]; exact entsOk_find e h1 hok
+
+theorem sg_find_none_iff {es : List Ent} {a : Nat} : findEnt es a = none ↔ ∀ e ∈ es, e.addr ≠ a := by
+  constructor
+  · intro h e he hea
+    induction es with
+    | nil => cases he
+    | cons x xs ih =>
+      simp only [findEnt] at h
+      split at h
+      · cases h
+      · rename_i hx
+        rcases List.mem_cons.1 he with rfl | he
+        · exact hx hea
+        · exact ih h he
+  · exact findEnt_none
+
+/-! ## 8. the fencepost loop of `add_segment` -/
+
+/-- `k` fenceposts at 8-byte steps from `p` -/
+def sgFenceList : Nat → Nat → List Ent
+  | 0, _ => []
+  | k + 1, p => { addr := p, size := 8, cin := true, pin := true, pfoot := 0 } :: sgFenceList k (p + 8)
+
+theorem sg_mem_fenceList {k p : Nat} {z : Ent} :
+    z ∈ sgFenceList k p ↔ ∃ i, i < k ∧ z = { addr := p + 8 * i, size := 8, cin := true, pin := true, pfoot := 0 } := by
+  induction k generalizing p with
+  | zero => simp [sgFenceList]
+  | succ k ih =>
+    simp only [sgFenceList, List.mem_cons, ih]
+    constructor
+    · rintro (h | ⟨i, hi, h⟩)
+      · exact ⟨0, by omega, by simpa using h⟩
+      · exact ⟨i + 1, by omega, by rw [h]; congr 1; omega⟩
+    · rintro ⟨i, hi, h⟩
+      cases i with
+      | zero => left; simpa using h
+      | succ i => right; exact ⟨i, by omega, by rw [h]; congr 1; omega⟩
+
+/-- **the fencepost loop**, by induction on the fuel: it writes fenceposts at `p, p+8, …, old_end-16` into the
+empty region `[p, old_end)` of the table -/
+theorem sg_fences : ∀ (fuel : Nat) {h h' : Heap} {p oe n n' : Nat}, fences fuel h p oe n = .ok (h', n') →
+    entsOk h.ents = true → (∀ y ∈ h.ents, y.addr + y.size ≤ p ∨ oe ≤ y.addr) → p + 16 ≤ oe → (oe - p) % 8 = 0 →
+    h' = { h with ents := h'.ents } ∧ entsOk h'.ents = true ∧
+      (∀ z, z ∈ h'.ents ↔ z ∈ h.ents ∨ z ∈ sgFenceList ((oe - p) / 8 - 1) p) ∧ n' = n + ((oe - p) / 8 - 1) := by
+  intro fuel
+  induction fuel with
+  | zero => intro h h' p oe n n' hh; unfold fences at hh; msimp at hh
+  | succ k ih =>
+    intro h h' p oe n n' hh hok hempty hp hmod
+    unfold fences at hh
+    rw [SIZEOF_USIZE_eq] at hh
+    dsimp only at hh
+    msimp at hh
+    obtain ⟨h1, e1, hh⟩ := hh
+    have hlow : ∀ y ∈ h.ents, y.addr < p → y.addr + y.size ≤ p := by
+      intro y hy hlt
+      rcases hempty y hy with h | h <;> omega
+    have hw : FENCEPOST_HEAD - INUSE = 8 := by decide
+    rw [hw] at e1
+    obtain ⟨r1, r2, r3⟩ := sg_writeHead_tab e1 hok (by omega) hlow
+    have hpf : pfootAt h.ents p = 0 := by
+      apply pfootAt_none
+      apply findEnt_none
+      intro y hy hya
+      have := entsOk_pos hok y hy
+      rcases hempty y hy with h | h <;> omega
+    rw [hpf] at r3
+    have hmem1 : ∀ z, z ∈ h1.ents ↔ z = { addr := p, size := 8, cin := true, pin := true, pfoot := 0 } ∨ z ∈ h.ents := by
+      intro z
+      rw [r3 z]
+      constructor
+      · rintro (h | ⟨h, _⟩)
+        · exact Or.inl h
+        · exact Or.inr h
+      · rintro (h | h)
+        · exact Or.inl h
+        · refine Or.inr ⟨h, ?_⟩
+          have := entsOk_pos hok z h
+          rcases hempty z h with h' | h' <;> omega
+    split at hh
+    · rename_i hlt
+      obtain ⟨i1, i2, i3, i4⟩ := ih hh r2 (by
+          intro y hy
+          rcases (hmem1 y).1 hy with h | h
+          · subst h; left; simp only; omega
+          · rcases hempty y h with h' | h'
+            · left; omega
+            · right; exact h') (by omega) (by omega)
+      have hk : (oe - p) / 8 - 1 = ((oe - (p + 8)) / 8 - 1) + 1 := by omega
+      refine ⟨?_, i2, ?_, by omega⟩
+      · rw [i1, r1]
+      · intro z
+        rw [i3 z, hmem1 z, hk]
+        simp only [sgFenceList, List.mem_cons]
+        constructor
+        · rintro ((h | h) | h)
+          · exact Or.inr (Or.inl h)
+          · exact Or.inl h
+          · exact Or.inr (Or.inr h)
+        · rintro (h | h | h)
+          · exact Or.inl (Or.inr h)
+          · exact Or.inl (Or.inl h)
+          · exact Or.inr h
+    · rename_i hge
+      msimp at hh
+      simp only [Prod.mk.injEq] at hh
+      obtain ⟨e2, e3⟩ := hh
+      subst e2
+      have hk : (oe - p) / 8 - 1 = 1 := by omega
+      refine ⟨r1, r2, ?_, by omega⟩
+      intro z
+      rw [hmem1 z, hk]
+      simp only [sgFenceList, List.mem_cons, List.not_mem_nil, or_false]
+      exact Or.comm
+
 end TinyVerif.Dl
